@@ -21,11 +21,12 @@
                   _install, _remove, open_run, close_run.    [is_status : val -> bool] = isinstance(ret, Status)
      pp_*         `yield from prefix(); return (yield from plan)`   (_inner_plan / inner of subs_wrapper,
                   suspend_wrapper, stage_wrapper); its store = the responses the prefix has received so far
-     fw_*         finalize_wrapper(body, final(store)) with pause_for_debug = False: the phase machine of
-                  Gen/Wrappers.v restricted to try/finally, but the final plan is a *function of the store
-                  the body left behind* (closures shared between body and final plan: `tokens`).
+     s2_* / fw_*  "body, then a follow-up plan chosen by how the body ended": finalize_wrapper(body, final(store)) with
+                  pause_for_debug = False is the instance [fw_resume], where the final plan is a *function of the
+                  store the body left behind* (closures shared between body and final plan: `tokens`).
                   Proofs/Paired.v: for a store-independent final plan it IS [cw_resume ... (finalize_opts false)],
                   the machine C22 proves equal to the transcribed source of finalize_wrapper.
+     d_*          `return (yield from X)`: the wrapper's own generator around the finalize_wrapper generator
    WRAPPERS
      stage_wrapper_init / sw_resume      cw_resume (C22) over body = pp(stage_all roots, plan), final = unstage_all (rev roots),
                                          roots = separate_devices (map root_ancestor devices)
@@ -258,87 +259,189 @@ Arguments PPStart {P} l p.
 Arguments PPPre {P} l p.
 Arguments PPPlan {P} acc p.
 
-(* ------------------------------------------------------------------ finalize_wrapper over a shared store *)
-Section FinalizeStore.
+(* ------------------------------------------------------------------ body, then a follow-up plan *)
+(* The common shape of try/finally and try/except/else around `yield from body`, as a machine:
+     S2Body   the body runs; inputs are forwarded (a GeneratorExit kind / close() closes it first)
+     S2Next   the body has terminated; [next] chose a follow-up plan q from how it terminated (and from the store
+              the body left behind) and a pending completion c; q runs; when it returns the wrapper completes with c,
+              when it raises, that exception replaces c.
+   [next] answering None ends the wrapper the way the body ended.
+   Instances: finalize_wrapper with a final plan reading a closure ([fw_next], below); Proofs/Paired.v shows that
+   C22's machine [cw_resume] with finalize_opts (any final plan) and with run_wrapper's options is this machine too. *)
+Inductive term := TRet (v : val) | TExc (e : exn) | TFuel.
+
+Definition term_obs (t : term) : obs :=
+  match t with TRet v => OReturn v | TExc e => ORaise e | TFuel => OFuel end.
+
+Definition term_outcome {X} (t : term) : outcome X :=
+  match t with TRet v => Returned v | TExc e => Raised e | TFuel => OutOfFuel end.
+
+Definition compl_outcome {X} (c : completion) : outcome X :=
+  match c with CRet v => Returned v | CExc e => Raised e | CNormal => Returned VNone end.
+
+Section Seq2.
   Context {B F S : Type}.
   Variable bres : B -> input -> outcome B.
   Variable bstore : B -> input -> S.          (* the store after that step of the body *)
   Variable fres : F -> input -> outcome F.
-  Variable fin : S -> F.                      (* the final plan (created before, started now: reads the store now) *)
+  Variable next : S -> term -> option (F * completion).
 
-  Inductive fphase :=
-    | FStart (b : B)
-    | FBody (b : B)
-    | FFinal (q : F) (c : completion).
+  Inductive s2 :=
+    | S2Start (b : B)
+    | S2Body (b : B)
+    | S2Next (q : F) (c : completion).
 
-  Definition f_finish (c : completion) : outcome fphase :=
-    match c with CRet v => Returned v | CExc e => Raised e | CNormal => Returned VNone end.
-
-  Definition f_final_result (c : completion) (r : outcome F) : outcome fphase :=
+  Definition s2_next_result (c : completion) (r : outcome F) : outcome s2 :=
     match r with
-    | Yielded m q => Yielded m (FFinal q c)
-    | Returned _ => f_finish c
+    | Yielded m q => Yielded m (S2Next q c)
+    | Returned _ => compl_outcome c
     | Raised e => Raised e
     | OutOfFuel => OutOfFuel
     end.
 
-  Definition f_enter_final (s : S) (c : completion) : outcome fphase :=
-    f_final_result c (fres (fin s) (Send VNone)).
+  (* the body terminated with t, leaving store s *)
+  Definition s2_after (s : S) (t : term) : outcome s2 :=
+    match next s t with
+    | Some (q, c) => s2_next_result c (fres q (Send VNone))
+    | None => term_outcome t
+    end.
 
-  Definition f_after_raise (s : S) (e : exn) : outcome fphase :=
-    if is_GeneratorExit e then Raised e else f_enter_final s (CExc e).
-
-  Definition f_body_result (s : S) (r : outcome B) : outcome fphase :=
+  Definition s2_body_result (s : S) (r : outcome B) : outcome s2 :=
     match r with
-    | Yielded m b' => Yielded m (FBody b')
-    | Returned v => f_enter_final s (CRet v)
-    | Raised e => f_after_raise s e
+    | Yielded m b' => Yielded m (S2Body b')
+    | Returned v => s2_after s (TRet v)
+    | Raised e => s2_after s (TExc e)
     | OutOfFuel => OutOfFuel
     end.
 
-  Definition f_close_body (b : B) (e : exn) : outcome fphase :=
+  Definition s2_close_body (b : B) (e : exn) : outcome s2 :=
     match close_result (bres b Close) with
-    | CloseOk => f_after_raise (bstore b Close) e
-    | CloseRaised e' => f_after_raise (bstore b Close) e'
+    | CloseOk => s2_after (bstore b Close) (TExc e)
+    | CloseRaised e' => s2_after (bstore b Close) (TExc e')
     | CloseFuel => OutOfFuel
     end.
 
-  Definition f_close_final (q : F) (e : exn) : outcome fphase :=
+  Definition s2_close_next (q : F) (e : exn) : outcome s2 :=
     match close_result (fres q Close) with
     | CloseOk => Raised e
     | CloseRaised e' => Raised e'
     | CloseFuel => OutOfFuel
     end.
 
-  Definition fw_resume (ph : fphase) (i : input) : outcome fphase :=
-    match ph with
-    | FStart b =>
+  Definition s2_resume (st : s2) (i : input) : outcome s2 :=
+    match st with
+    | S2Start b =>
         match i with
-        | Send VNone => f_body_result (bstore b (Send VNone)) (bres b (Send VNone))
+        | Send VNone => s2_body_result (bstore b (Send VNone)) (bres b (Send VNone))
         | Send _ => Raised ETypeError
         | Throw e => Raised e
         | Close => Raised EGeneratorExit
         end
-    | FBody b =>
+    | S2Body b =>
         match i with
-        | Send v => f_body_result (bstore b (Send v)) (bres b (Send v))
+        | Send v => s2_body_result (bstore b (Send v)) (bres b (Send v))
         | Throw e =>
-            if is_GeneratorExit e then f_close_body b e
-            else f_body_result (bstore b (Throw e)) (bres b (Throw e))
-        | Close => f_close_body b EGeneratorExit
+            if is_GeneratorExit e then s2_close_body b e
+            else s2_body_result (bstore b (Throw e)) (bres b (Throw e))
+        | Close => s2_close_body b EGeneratorExit
         end
-    | FFinal q c =>
+    | S2Next q c =>
         match i with
-        | Send v => f_final_result c (fres q (Send v))
-        | Throw e => if is_GeneratorExit e then f_close_final q e else f_final_result c (fres q (Throw e))
-        | Close => f_close_final q EGeneratorExit
+        | Send v => s2_next_result c (fres q (Send v))
+        | Throw e => if is_GeneratorExit e then s2_close_next q e else s2_next_result c (fres q (Throw e))
+        | Close => s2_close_next q EGeneratorExit
         end
     end.
-End FinalizeStore.
+End Seq2.
 
-Arguments FStart {B F} b.
-Arguments FBody {B F} b.
-Arguments FFinal {B F} q c.
+Arguments S2Start {B F} b.
+Arguments S2Body {B F} b.
+Arguments S2Next {B F} q c.
+
+(* finalize_wrapper(body, final) with pause_for_debug = False, where the final plan -- a generator created before
+   the body runs but started after it -- reads a closure variable the body fills (its store): the final plan runs
+   unless the body ended with a GeneratorExit kind *)
+Definition fw_next {F S} (fin : S -> F) (s : S) (t : term) : option (F * completion) :=
+  match t with
+  | TRet v => Some (fin s, CRet v)
+  | TExc e => if is_GeneratorExit e then None else Some (fin s, CExc e)
+  | TFuel => None
+  end.
+
+Definition fw_resume {B F S} (bres : B -> input -> outcome B) (bstore : B -> input -> S)
+           (fres : F -> input -> outcome F) (fin : S -> F) : @s2 B F -> input -> outcome (@s2 B F) :=
+  s2_resume bres bstore fres (fw_next fin).
+
+(* ------------------------------------------------------------------ reference traces *)
+(* Scripts that neither close nor halt the wrapper: no Close, no thrown GeneratorExit kind. *)
+Definition plain_input (i : input) : bool :=
+  match i with Send _ => true | Throw e => negb (is_GeneratorExit e) | Close => false end.
+Definition plain (s : list input) : bool := forallb plain_input s.
+
+Section Split.
+  Context {X S : Type}.
+  Variable res : X -> input -> outcome X.
+  Variable store : X -> input -> S.
+
+  (* drive x with the script: the messages it yields and -- if it terminates -- how, the store it leaves and the
+     inputs not consumed *)
+  Fixpoint split (x : X) (s : list input) : list msg * option (term * S * list input) :=
+    match s with
+    | [] => ([], None)
+    | i :: r =>
+        match res x i with
+        | Yielded m x' => let '(ms, e) := split x' r in (m :: ms, e)
+        | Returned v => ([], Some (TRet v, store x i, r))
+        | Raised e => ([], Some (TExc e, store x i, r))
+        | OutOfFuel => ([], Some (TFuel, store x i, r))
+        end
+    end.
+End Split.
+
+Definition no_store {X} : X -> input -> unit := fun _ _ => tt.
+
+(* a termination after which cleanup runs: a return, or an exception that is not a GeneratorExit kind *)
+Definition plain_end (t : term) : option completion :=
+  match t with
+  | TRet v => Some (CRet v)
+  | TExc e => if is_GeneratorExit e then None else Some (CExc e)
+  | TFuel => None
+  end.
+
+Definition compl_obs (c : completion) : obs :=
+  match c with CRet v => OReturn v | CExc e => ORaise e | CNormal => OReturn VNone end.
+
+Section Seq2Ref.
+  Context {B F S : Type}.
+  Variable bres : B -> input -> outcome B.
+  Variable bstore : B -> input -> S.
+  Variable fres : F -> input -> outcome F.
+  Variable next : S -> term -> option (F * completion).
+
+  (* the follow-up plan q runs on s; the wrapper then completes with c *)
+  Definition next_ref (q : F) (c : completion) (s : list input) : list obs :=
+    let '(ms, e) := split fres no_store q s in
+    map OYield ms ++
+    match e with
+    | None => []
+    | Some (TRet _, _, _) => [compl_obs c]
+    | Some (TExc e', _, _) => [ORaise e']
+    | Some (TFuel, _, _) => [OFuel]
+    end.
+
+  Definition s2_ref (b : B) (s : list input) : list obs :=
+    let '(ms, e) := split bres bstore b s in
+    map OYield ms ++
+    match e with
+    | None => []
+    | Some (TFuel, _, _) => [OFuel]
+    | Some (t, st, rest) =>
+        match next st t with
+        | Some (q, c) => next_ref q c (Send VNone :: rest)
+        | None => [term_obs t]
+        end
+    end.
+End Seq2Ref.
 
 (* ------------------------------------------------------------------ return (yield from X) *)
 (* The last statement of stage_wrapper / subs_wrapper / suspend_wrapper: the wrapper is itself a generator that
@@ -433,13 +536,13 @@ Section PairedWrappers.
   Definition unsubscribe_plan (tokens : list val) : lplan :=
     LPStart (map (fun t => mk (VUnsubscribe t)) (set_iter tokens)) None.
 
-  Definition subs_phase := @fphase (@pp_state P) lplan.
+  Definition subs_phase := @s2 (@pp_state P) lplan.
   Definition subs_state := @dstate subs_phase.
 
   Definition subs_fin_resume : subs_phase -> input -> outcome subs_phase :=
     fw_resume (pp_resume resume is_status) pp_store (lp_resume is_status) unsubscribe_plan.
   Definition subs_wrapper_init (subs : list (nat * nat)) (p : P) : subs_state :=
-    DStart (FStart (PPStart (LPStart (subscribe_msgs subs) None) p)).
+    DStart (S2Start (PPStart (LPStart (subscribe_msgs subs) None) p)).
   Definition subs_resume : subs_state -> input -> outcome subs_state := d_resume subs_fin_resume.
 
   (* --- run_wrapper *)
@@ -521,6 +624,74 @@ Section PairedWrappers.
     end.
 
   Definition run_wrapper_init (p : P) : rw_state := RwStart p.
+
+  (* ---------------- reference traces of the wrappers (scripts: after the Send None that starts the wrapper) *)
+  Definition lp_split := split (lp_resume is_status) lp_store.
+
+  Definition retag (acc : list val) (e : option (term * unit * list input)) : option (term * list val * list input) :=
+    match e with Some (t, _, r) => Some (t, acc, r) | None => None end.
+
+  (* the body `yield from prefix(); return (yield from plan)` driven by s: its messages, and -- if it ended -- how,
+     the responses the prefix had received by then, and the inputs left over *)
+  Definition body_ref (pre : lplan) (p : P) (s : list input) : list msg * option (term * list val * list input) :=
+    let '(ms1, e1) := lp_split pre s in
+    match e1 with
+    | None => (ms1, None)
+    | Some (TRet _, acc, rest) =>
+        let '(ms2, e2) := split resume no_store p (Send VNone :: rest) in (ms1 ++ ms2, retag acc e2)
+    | Some (t, acc, rest) => (ms1, Some (t, acc, rest))
+    end.
+
+  (* the undo plan runs; afterwards the wrapper completes with c *)
+  Definition undo_ref (undo : lplan) (c : completion) (rest : list input) : list obs :=
+    next_ref (lp_resume is_status) undo c (Send VNone :: rest).
+
+  (* do-prefix; wrapped plan; undo(responses the prefix received): the three phases in order *)
+  Definition paired_ref (pre : lplan) (undo : list val -> lplan) (p : P) (s : list input) : list obs :=
+    let '(ms1, e1) := lp_split pre (Send VNone :: s) in
+    map OYield ms1 ++
+    match e1 with
+    | None => []
+    | Some (TRet _, acc, rest) =>
+        let '(ms2, e2) := split resume no_store p (Send VNone :: rest) in
+        map OYield ms2 ++
+        match e2 with
+        | None => []
+        | Some (TRet v, _, rest2) => undo_ref (undo acc) (CRet v) rest2
+        | Some (TExc e, _, rest2) => if is_GeneratorExit e then [ORaise e] else undo_ref (undo acc) (CExc e) rest2
+        | Some (TFuel, _, _) => [OFuel]
+        end
+    | Some (TExc e, acc, rest) => if is_GeneratorExit e then [ORaise e] else undo_ref (undo acc) (CExc e) rest
+    | Some (TFuel, _, _) => [OFuel]
+    end.
+
+  Definition stage_ref (roots : list dev) := paired_ref (stage_do roots) (fun _ => stage_undo roots).
+  Definition suspend_ref (susps : list nat) :=
+    paired_ref (LPStart (install_msgs susps) None) (fun _ => LPStart (remove_msgs susps) None).
+  Definition subs_ref (subs : list (nat * nat)) := paired_ref (LPStart (subscribe_msgs subs) None) unsubscribe_plan.
+
+  Definition ret_obs (uid : val) (o : obs) : obs := match o with OReturn _ => OReturn uid | _ => o end.
+
+  (* what follows the wrapped plan in run_wrapper: close_run() after a return, close_run(status of e) after an
+     Exception kind, nothing after anything else *)
+  Definition run_next (_ : unit) (t : term) : option (rplan * completion) :=
+    match t with
+    | TRet v => Some (close_plan (VClose None None), CRet v)
+    | TExc e =>
+        if is_GeneratorExit e then None
+        else if is_Exception e then Some (close_plan (close_view e), CExc e) else None
+    | TFuel => None
+    end.
+
+  (* run_wrapper after the Send None that produced Msg('open_run') *)
+  Definition run_ref (p : P) (s : list input) : list obs :=
+    match s with
+    | [] => []
+    | Send uid :: rest =>
+        map (ret_obs uid) (s2_ref r_resume no_store r_resume run_next (RPlan p) (Send VNone :: rest))
+    | Throw e :: _ => [ORaise e]
+    | Close :: _ => [OClosed]
+    end.
 End PairedWrappers.
 
 Arguments WBody {P} s.
